@@ -32,6 +32,35 @@ class Ctx:
         return config in self.dirs
 
 
+def selftest(prop):
+    """Checker self-test (informational, never changes the exit code): every mutants/<cxx>_*.diff is applied to a
+    scratch worktree and must make this property's quick check report a violation; every refactor_<cxx>_*.diff
+    (behaviour-preserving) must leave it quiet."""
+    import glob
+    import subprocess
+    out = {'mutants': [], 'refactors': [], 'applied': 0, 'detected': 0, 'skipped': 0, 'refactors_quiet': 0}
+    pats = [('mutants', os.path.join(VERIF, 'mutants', '%s_*.diff' % prop.lower())),
+            ('refactors', os.path.join(VERIF, 'mutants', 'refactor_%s_*.diff' % prop.lower()))]
+    for kind, pat in pats:
+        for f in sorted(glob.glob(pat)):
+            env = dict(os.environ, VERIF_NO_SELFTEST='1', MUTANT_TIER='quick')
+            r = subprocess.run([os.path.join(VERIF, 'bin', 'mutant'), f, prop], stdout=subprocess.PIPE, stderr=subprocess.STDOUT, text=True, env=env)
+            name = os.path.basename(f)
+            if 'PATCH-DOES-NOT-APPLY' in r.stdout or 'EXTRACTION FAILED' in r.stdout:
+                out['skipped'] += 1
+                out[kind].append({'patch': name, 'result': 'skipped (does not apply / build)'})
+                continue
+            fired = [l.strip()[:200] for l in r.stdout.splitlines() if l.strip().startswith('violation ')]
+            if kind == 'mutants':
+                out['applied'] += 1
+                out['detected'] += 1 if fired else 0
+                out[kind].append({'patch': name, 'result': 'detected' if fired else 'MISSED', 'by': [x.split(':')[0].replace('violation ', '') for x in fired][:4]})
+            else:
+                out['refactors_quiet'] += 0 if fired else 1
+                out[kind].append({'patch': name, 'result': 'FALSE ALARM' if fired else 'quiet', 'by': fired[:2]})
+    return out
+
+
 def main():
     ap = argparse.ArgumentParser()
     ap.add_argument('prop')
@@ -75,6 +104,11 @@ def main():
             sys.stderr.write(tb)
             rep.rule('engine', 'every rule evaluates without an internal error')
             rep.bad('engine', 'engine-error-thorough', 'thorough step crashed (failing closed): ' + tb.strip().split('\n')[-1])
+    if args.tier == 'thorough' and not os.environ.get('VERIF_NO_SELFTEST') and not os.environ.get('CRUX_REPO'):
+        try:
+            rep.selftest = selftest(prop)
+        except Exception as e:  # informational only
+            rep.selftest = {'error': str(e)}
     with open(os.path.join(VERIF, 'known_findings.json')) as fh:
         known = json.load(fh)
     rc = rep.finish(known, mod.EXPLANATION, mod.TECHNIQUE)
